@@ -1168,6 +1168,7 @@ fn main() {
     let mut replay: Option<String> = None;
     let mut round = 0u64;
     let mut rounds = 0u64;
+    let mut single_actor = false;
     let mut i = 1;
     while i < args.len() {
         let nx = || args.get(i + 1).cloned().unwrap_or_default();
@@ -1183,6 +1184,11 @@ fn main() {
             "--replay" => replay = Some(nx()),
             "--round" => round = nx().parse().unwrap(),
             "--rounds" => rounds = nx().parse().unwrap(),
+            "--single-actor" => {
+                single_actor = true;
+                i += 1;
+                continue;
+            }
             _ => {
                 i += 1;
                 continue;
@@ -1201,8 +1207,17 @@ fn main() {
         let w = if doc.get("witness").is_some() { &doc["witness"] } else { &doc };
         let fids: Vec<u64> = w["group"].as_array().unwrap().iter().map(|x| x.as_u64().unwrap()).collect();
         let group: Vec<usize> = fids.iter().map(|fid| corpus::FUNCS.iter().position(|d| d.fid as u64 == *fid).expect("fid")).collect();
-        let ops: Vec<Op> = w["ops"].as_array().unwrap().iter().map(op_from).collect();
-        let n_actors = w["actors"].as_u64().unwrap() as usize;
+        let mut ops: Vec<Op> = w["ops"].as_array().unwrap().iter().map(op_from).collect();
+        let mut n_actors = w["actors"].as_u64().unwrap() as usize;
+        if single_actor {
+            // counterfactual for C14: the same history with every call issued by one thread
+            n_actors = 1;
+            for o in ops.iter_mut() {
+                if let Op::Call { actor, .. } = o {
+                    *actor = 0;
+                }
+            }
+        }
         let hseed = w["seed"].as_u64().unwrap();
         let hid = w["hist"].as_u64().unwrap();
         let f = w["focus"].as_str().unwrap_or("all").to_string();
